@@ -143,10 +143,16 @@ def be32 : Bytes → Nat
   | [a, b, c, d] => ((a.toNat * 256 + b.toNat) * 256 + c.toNat) * 256 + d.toNat
   | _ => 0
 
-/-- `read_blob_header_size_from_file` (queue branch): a truncated size field is EOF (0). -/
+/-- `read_blob_header_size_from_file` (queue branch).  When fewer than 4 bytes can be had,
+    `ensure_available_in_input_queue` has appended everything that was still to come to
+    `m_input_buffer` before it threw, so in the `catch` block the buffer is `buf ++ pending`:
+    empty = clean end of file (0), 1 to 3 bytes left = the input ends inside the length field
+    (`pbf_error "unexpected EOF"`, the same outcome class as every other truncation). -/
 def PbfIn.readHeaderSize (maxHeader : Nat) (p : PbfIn) : Except PbfErr (Nat × PbfIn) :=
   match p.readExact 4 with
-  | .error _ => .ok (0, p)      -- `catch (const osmium::pbf_error&) { return 0; }`
+  | .error _ =>                  -- `catch (const osmium::pbf_error&)`
+    if (p.buf ++ p.src.pending).isEmpty then .ok (0, p)   -- `return 0; // clean end of file`
+    else .error .truncated                                  -- `if (!m_input_buffer.empty()) throw ...`
   | .ok (b, p') =>
     let size := be32 b
     if size > maxHeader then .error .headerTooLarge else .ok (size, p')
